@@ -67,39 +67,32 @@ Lemma transpose01_refuted : res_ok [0; 1] (run1 (OPermute [1; 0; 2; 3]) b2sq) = 
 Proof. vm_compute. reflexivity. Qed.
 Lemma cumsum0_refuted : res_ok [0; 1; 2] (run1 (OScan 0%Z) b3) = false.
 Proof. vm_compute. reflexivity. Qed.
-(* 3. split with a list of sizes / split_with_sizes: the start offset is never advanced *)
-Lemma split_sizes_refuted : res_ok [0; 1; 2] (run1 (OSplitL [1; 2] DNone) b3) = false
-                            /\ res_ok [0; 1; 2] (run1 (OSplitSizes [1; 2] DNone) b3) = false.
+(* ---- former counterexamples that the repaired dispatcher now handles (general theorems: Proofs/C19Split.v,
+        C19GetItem.v; the FlowFields dispatcher has no general theorem, these concrete runs pin its repaired behaviour) ---- *)
+Definition typed_pieces (r : ores) : list (list gid) :=
+  match r with
+  | OTuple os => map (fun o => match v_kind o with TBatch _ gs => gs | _ => [] end) os
+  | _ => []
+  end.
+Lemma split_sizes_fixed :
+  res_ok [0; 1; 2] (run1 (OSplitL [1; 2] DNone) b3) = true /\ typed_pieces (run1 (OSplitSizes [1; 2] DNone) b3) = [[0]; [1; 2]].
 Proof. split; vm_compute; reflexivity. Qed.
-(* 4. tensor_split with a number of sections raises (6 images, 3 sections), the data op succeeds *)
-Lemma tensor_split_int_refuted :
-  raises (run1 (OTSplitN 3 DNone) b6) EAssert = true
-  /\ match data_sem (OTSplitN 3 DNone) [t_shape b6] with DTuple l => length l | _ => 0 end = 3.
-Proof. split; vm_compute; reflexivity. Qed.
-(* 5. splitting along any other dimension raises *)
-Lemma split_other_dim_refuted :
-  raises (run1 (OSplit 1 (DKw 1%Z)) b3) EAssert = true /\ raises (run1 (OTSplitI [1] (DPos 1%Z)) b3) EAssert = true.
-Proof. split; vm_compute; reflexivity. Qed.
-(* 6. batch[...] gives every entry the grid of image 0; masks index the grids with True/False *)
-Lemma getitem_ellipsis_refuted : res_ok [0; 1; 2] (run1 (OGetItem (GOne IEll)) b3) = false.
+Lemma tensor_split_int_fixed : typed_pieces (run1 (OTSplitN 3 DNone) b6) = [[0; 1]; [2; 3]; [4; 5]].
 Proof. vm_compute. reflexivity. Qed.
-Lemma getitem_mask_refuted : res_ok [0; 1; 2] (run1 (OGetItem (GOne (IBools [true; false; true]))) b3) = false.
-Proof. vm_compute. reflexivity. Qed.
-(* the narrow method with a negative dimension narrows the data along the batch dimension but keeps all grids *)
-Lemma narrow_method_negative_dim_refuted : res_ok [0; 1; 2] (run1 (ONarrowM (-4)%Z 1 2) b3) = false.
-Proof. vm_compute. reflexivity. Qed.
-(* 7. FlowFields: the batch size is not compared with the number of grids; the split family raises;
-      copy.copy raises; from_images forgets the axes *)
-Lemma flow_batch_size_refuted : res_ok [0; 1; 2] (run1 (ONarrow 0%Z 1 2) f3) = false
-                                /\ res_ok [0; 1; 2] (run1 (ORepeat [2; 1; 1; 1]) f3) = false.
-Proof. split; vm_compute; reflexivity. Qed.
-Lemma flow_split_refuted : raises (run1 (OSplit 1 DNone) f3) EAttr = true.
-Proof. vm_compute. reflexivity. Qed.
-Lemma flow_copy_refuted : raises (run1 (OCopy CCopy) f3) EType = true.
-Proof. vm_compute. reflexivity. Qed.
-Lemma flow_from_images_axes_refuted :
-  match run1 (OIterBuild BFromImages [0; 1; 2]) f3 with
-  | OOne o => kind_axes (v_kind o)
-  | _ => None
-  end = Some CUBE_CORNERS.       (* the flow fields had WORLD axes *)
-Proof. vm_compute. reflexivity. Qed.
+(* splitting along the channel dimension: every piece keeps all grids (keyword, positional and negative dim alike) *)
+Lemma split_other_dim_fixed :
+  typed_pieces (run1 (OSplit 1 (DKw 1%Z)) b3) = [[0; 1; 2]; [0; 1; 2]]
+  /\ typed_pieces (run1 (OTSplitI [1] (DPos 1%Z)) b3) = [[0; 1; 2]; [0; 1; 2]]
+  /\ typed_pieces (run1 (OSplitSizes [1; 2] (DPos (-4)%Z)) b3) = [[0]; [1; 2]].
+Proof. repeat split; vm_compute; reflexivity. Qed.
+Lemma getitem_narrow_fixed :
+  res_ok [0; 1; 2] (run1 (OGetItem (GOne IEll)) b3) = true
+  /\ res_ok [0; 1; 2] (run1 (OGetItem (GOne (IBools [true; false; true]))) b3) = true
+  /\ res_ok [0; 1; 2] (run1 (ONarrowM (-4)%Z 1 2) b3) = true.
+Proof. repeat split; vm_compute; reflexivity. Qed.
+Lemma flowfields_fixed :
+  (res_ok [0; 1; 2] (run1 (ONarrow 0%Z 1 2) f3) = true /\ res_ok [0; 1; 2] (run1 (ORepeat [2; 1; 1; 1]) f3) = true)
+  /\ typed_pieces (run1 (OSplit 1 DNone) f3) = [[0]; [1]; [2]]
+  /\ run1 (OCopy CCopy) f3 = OOne (mkO [3; 2; 3; 4] (TBatch (Some WORLD) [0; 1; 2]) [[(0, 0)]; [(0, 1)]; [(0, 2)]])
+  /\ match run1 (OIterBuild BFromImages [0; 1; 2]) f3 with OOne o => kind_axes (v_kind o) | _ => None end = Some WORLD.
+Proof. repeat split; vm_compute; reflexivity. Qed.
